@@ -186,6 +186,30 @@ fn judge_history(c: &HistCase, cls: &mut Classifier) -> Verdict {
     Ok(())
 }
 
+/// `hash message -` with the message typed at a terminal (text lines, end-of-file character): the digest covers
+/// exactly the bytes typed, the final line feed included.
+#[derive(Clone, Debug, Serialize, Deserialize)]
+pub struct TtyCase {
+    pub text: String,
+    pub stdout_tty: bool,
+}
+
+fn judge_tty(c: &TtyCase, cls: &mut Classifier) -> Verdict {
+    let Some(exe) = crate::cli::global_cli() else { return fail("cli", "not configured", "CLI not available") };
+    let m = c.text.as_bytes();
+    let want = format!("0x{}\n", hex_lower(&eip191(m)));
+    let Some(out) = crate::cli::run_tty(&exe, &["hash", "message", "-"], m, true, c.stdout_tty) else {
+        cls.label("tty-not-available-or-timeout");
+        return Ok(());
+    };
+    if !out.ok() || out.stdout_str() != want {
+        return fail(want, out.describe(), format!("`hdwallet hash message -` with {:?} typed at a terminal{}: EIP-191 digest of exactly those {} bytes", c.text, if c.stdout_tty { " (output to the terminal too)" } else { "" }, m.len()));
+    }
+    cls.label("terminal");
+    cls.nontrivial(&("tty", c.text.as_str(), c.stdout_tty));
+    Ok(())
+}
+
 pub fn run(ctx: &mut Ctx) {
     ctx.rule = "byte strings: every length 0..=1100 (seeded random content, first byte forced through all 256 values and ASCII digits), lengths 10^k-1,10^k,10^k+1 (k=1..6 quick, 1..7 thorough), special contents (NUL, newline, invalid UTF-8, digits only) and proptest-generated strings; oracle: keccak(0x19 'Ethereum Signed Message:\\n' dec(len) m) via sha3 with own decimal loop, for Vec<u8>, &[u8] and String carriers; CLI sample: `hash message` prints that digest and the `sign message` signature recovers to the reference-derived signer over it (file and stdin; non-UTF-8 and trailing-newline contents, and a table of contents that look like another encoding or carry a marker: byte-order marks, hex/JSON/base64/escape look-alikes, white-space framing, option-like text, NULs). Histories: a message, 2-4 relatives (same length with other bytes, one bit flipped, one byte shorter/longer, top bits set, reversed) and the first one again, digested one after the other on one thread. Non-trivial: message differs from the pinned 12-byte unit-test message; distinct by content.".into();
     ctx.assumptions = vec!["sha3::Keccak256 is a correct Keccak-256".into()];
@@ -283,6 +307,27 @@ pub fn run(ctx: &mut Ctx) {
             cc.push(CliCase { msg_hex: hex_lower(t), stdin: true });
         }
         ctx.run_cases("cli-message", &cc, judge_cli);
+        let mut tp = Prng::new(ctx.sub_seed("tty", 0));
+        let mut tc = vec![];
+        for i in 0..ctx.tier.pick(24, 300) {
+            let lines = 1 + tp.below(3) as usize;
+            let mut t = String::new();
+            for _ in 0..lines {
+                let len = tp.below(30) as usize;
+                t.extend((0..len).map(|_| (0x20 + tp.below(0x5f) as u8) as char));
+                t.push('\n');
+            }
+            if i % 4 == 3 {
+                t.pop();
+            }
+            tc.push(TtyCase { text: t, stdout_tty: i % 2 == 1 });
+        }
+        tc.push(TtyCase { text: "hello\n".into(), stdout_tty: false });
+        tc.push(TtyCase { text: "\n".into(), stdout_tty: true });
+        ctx.run_cases("terminal", &tc, judge_tty);
+        if ctx.cls.count("tty-not-available-or-timeout") > 0 {
+            ctx.inconclusive(format!("{} terminal runs could not be made (no pseudo-terminal or time-out)", ctx.cls.count("tty-not-available-or-timeout")));
+        }
         if ctx.cls.count("timed-out") > 0 {
             ctx.inconclusive("CLI watchdog expired");
         }
@@ -303,6 +348,7 @@ pub fn replay(sub: &str, case: &Value) -> Option<Verdict> {
         "sweep" | "pow10" | "random" => Some(replay_as::<Case>(case, judge)),
         "cli-message" => Some(replay_as::<CliCase>(case, judge_cli)),
         "history" => Some(replay_as::<HistCase>(case, judge_history)),
+        "terminal" => Some(replay_as::<TtyCase>(case, judge_tty)),
         _ => None,
     }
 }
